@@ -31,6 +31,20 @@
 #include "cmi_coroutine.h"
 #include "cmi_memutils.h"
 
+#ifdef CIMBA_VERIF
+/* Verification hook H1 (guard CIMBA_VERIF), AddressSanitizer builds only */
+#if defined(__SANITIZE_ADDRESS__)
+#define CMI_VERIF_ASAN 1
+#elif defined(__has_feature)
+#if __has_feature(address_sanitizer)
+#define CMI_VERIF_ASAN 1
+#endif
+#endif
+#ifdef CMI_VERIF_ASAN
+extern void __asan_unpoison_memory_region(void const volatile *addr, size_t size);
+#endif
+#endif /* CIMBA_VERIF */
+
 /* Assembly function, see src/arc/cmi_coroutine_context_*.asm */
 extern void cmi_coroutine_trampoline(void);
 
@@ -135,6 +149,11 @@ void cmi_coroutine_context_init(struct cmi_coroutine *cp)
     cmb_assert_release(cp != NULL);
     cmb_assert_debug(cp->stack != NULL);
     cmb_assert_debug(cp->stack_base != NULL);
+
+#if defined(CIMBA_VERIF) && defined(CMI_VERIF_ASAN)
+    /* A stopped coroutine abandons poisoned frames; a restart reuses the stack */
+    __asan_unpoison_memory_region(cp->stack, (size_t)(cp->stack_base - cp->stack));
+#endif
 
     /* Make sure we can recognize if something overwrites the end of stack */
     cp->stack_limit = cp->stack;
